@@ -1866,7 +1866,7 @@ impl World for C03 {
         check_plain(scn, Judge { evals: true, streams: false, build: false, battery: false }, cov, prog)
     }
     fn rule(&self) -> String {
-        format!("Each run: 1-3 seeded piecewise functions (29 piece types, 8 breakpoint patterns, library-produced sources), 1-4 PiecewiseEvaluator clients, 1-64 events (queries drawn from 17 seeded move kinds, evaluator restarts) scheduled by the PRNG; after every query the evaluator's answer is compared bit for bit with Piecewise::evaluate. {ORDER_RULE}")
+        format!("Each run: 1-5 seeded piecewise functions (30 piece types incl. a nested piecewise piece, 8 breakpoint patterns, 1 to 65 537 segments, library-produced sources), 1-9 PiecewiseEvaluator clients (whole function or a sub-slice), 1-64 events mostly and up to 400 000 rarely (queries drawn from 17 seeded move kinds, repeat bursts, monotone drifts, evaluator restarts, in-place mutation of the function between client lifetimes) scheduled by the PRNG; one run in six is drawn from the small scope; after every query the evaluator's answer is compared bit for bit with Piecewise::evaluate. {ORDER_RULE}")
     }
     fn assumptions(&self) -> Vec<String> {
         let mut a = common_assumptions();
